@@ -25,6 +25,9 @@ MASK48 = (1 << 48) - 1
 
 def _setup_path():
     repo = os.environ.get('VERIF_REPO') or '/repo'
+    here = os.path.dirname(os.path.abspath(__file__))
+    while here in sys.path:
+        sys.path.remove(here)     # never let sim/*.py shadow real modules
     if VERIF not in sys.path:
         sys.path.insert(0, VERIF)
     if repo in sys.path:
